@@ -156,7 +156,7 @@ class JSONPointer:
                     # with JSON Patch, but not when resolving a JSON Pointer.
                     raise JSONPointerIndexError("index out of range") from None
                 # Handle non-standard index pointer.
-                if isinstance(key, str) and key.startswith("#"):
+                if isinstance(key, str) and key.startswith("#") and key[1:].isdigit():
                     _index = int(key[1:])
                     if _index >= len(obj):
                         raise JSONPointerIndexError(
